@@ -348,6 +348,32 @@ def b2_behaviours(rep: Report, n: int, num: int, depth: int) -> None:
         shutil.rmtree(tmp, ignore_errors=True)
 
 
+def _apalache(rep: Report, invs: list[str]) -> None:
+    """Unbounded complement (specs/apalache/RangeInt.tla): one-state invariants discharged symbolically."""
+    import subprocess
+    import time
+    out_dir = tempfile.mkdtemp(prefix="verif_apa_")
+    try:
+        for inv in invs:
+            t0 = time.time()
+            try:
+                p = subprocess.run(["apalache-mc", "check", f"--inv={inv}", "--length=0", f"--out-dir={out_dir}", "RangeInt.tla"],
+                                   cwd=os.path.join(tla.SPECS, "apalache"), capture_output=True, text=True, timeout=600)
+                txt = p.stdout + p.stderr
+            except (subprocess.TimeoutExpired, FileNotFoundError) as e:
+                rep.notes.append(f"apalache {inv}: not decided ({type(e).__name__})")
+                continue
+            if "The outcome is: NoError" in txt:
+                rep.cov.setdefault("apalache_obligations", []).append({"inv": inv, "outcome": "NoError", "wall_s": round(time.time() - t0, 1)})
+            elif "The outcome is: Error" in txt:
+                rep.violation(f"{rep.pid}:spec:apalache:{inv}", f"Apalache found a counterexample to {inv} on the transcribed range operators", {"apalache_tail": txt[-1500:]})
+            else:
+                rep.notes.append(f"apalache {inv}: no verdict ({txt[-200:]!r})")
+    finally:
+        import shutil
+        shutil.rmtree(out_dir, ignore_errors=True)
+
+
 def pairs_membership(rep: Report, n: int) -> None:
     """C04 on the algebra: every Pairs transition replayed with membership through `in`/contains()."""
     tmp = tempfile.mkdtemp(prefix="verif_ia_")
@@ -441,6 +467,9 @@ def run(pid: str, tier: str, replay: str | None = None) -> int:
             rep.add("traces_validated_against_impl", tot)
             rep.count("b1_law_vectors", len(lv))
 
+        # ----------------------------------------------------------- Apalache: two-range operations for ARBITRARY integer bounds
+        if thorough and pid in ("C01", "C05"):
+            _apalache(rep, {"C01": ["AndSound", "OrSound"], "C05": ["AndCanon", "OrCanon"]}[pid])
         # ----------------------------------------------------------- marker objects (C13 / C14 speak of both families)
         if pid in ("C13", "C14"):
             from . import check_marker
